@@ -811,6 +811,15 @@ class Impl:
         if G.is_directed():
             r["iet_in"] = g(lambda: hist(G.inter_in_event_time_distribution()))
             r["iet_out"] = g(lambda: hist(G.inter_out_event_time_distribution()))
+        pp = {}
+        for a in nodes:
+            for b in nodes:
+                e = {"both": g(lambda: hist(G.inter_event_time_distribution(a, b)))}
+                if G.is_directed():
+                    e["in"] = g(lambda: hist(G.inter_in_event_time_distribution(a, b)))
+                    e["out"] = g(lambda: hist(G.inter_out_event_time_distribution(a, b)))
+                pp["%d,%d" % (C(a), C(b))] = e
+        r["piet"] = pp
         return r
 
     # ---- paths
